@@ -19,3 +19,11 @@ Definition mro_rejection_agrees : Prop :=
 From C12 Require Import Bind.
 Definition arity_agrees_pos_kw : Prop :=
   forall sig c, wf_sig sig -> determinate c -> (mypy_accepts sig c = true <-> cpython_bind sig c = BindOk).
+
+(* (a) full strength over star actuals of known shape.  FALSE on the current tree: PropertiesAB.arity_star_refuted_L1/L2/L3;
+   proved instead: PropertiesAB.arity_agrees_star (the iff for every call outside the three leniency classes).
+   Not represented: *iterable of unknown length, **dict of unknown keys (indeterminate), and NotRequired TypedDict keys
+   being absent at run time (the outcome then depends on the run-time dict; mypy maps them as if present). *)
+Definition arity_agrees_star_full : Prop :=
+  forall sig c, wf_sig sig ->
+    (mypy_accepts_s sig c = true <-> cpython_bind_s sig c = BindOk).
